@@ -22,6 +22,7 @@ RULE = (
     "look-alikes of library names x default string sizes 32 / 33..255. Non-trivial: the dependency closure has >= 3 procedures or a "
     "literal contains a trigger word; distinct by sha1 of (program, procname, size)"
 )
+RULE += " Also (complete enumeration on every run): every device statement form and converted function as a one-line program at sizes 32 / 80 / 1000 under two procedure names; short programs whose only call of a library procedure sits in front of 9-24 string literals; literals and DATA items of the bundle's user procedure are compared with the source AST; one case in three in a drawn layout."
 ASSUMPTIONS = [
     "OS-9 system modules that may be RUN without being bundled: gfx, gfx2, syscall, inkey",
     "'alphabetical order' is the ordinary string order of the (lower-case) procedure names",
